@@ -105,10 +105,11 @@ class Ctx:
         for k in self.known_hit:
             print('KNOWN-FINDING: property={} {}'.format(self.prop, k['what']))
         rc = 0
-        os.makedirs(os.path.join(VERIF, 'replay'), exist_ok=True)
+        rdir = os.path.join(os.environ.get('VERIF_EVIDENCE_DIR') or VERIF, 'replay') if os.environ.get('VERIF_EVIDENCE_DIR') else os.path.join(VERIF, 'replay')
+        os.makedirs(rdir, exist_ok=True)
         for v in real:
             safe = ''.join(c if c.isalnum() or c in '-_.' else '_' for c in v['key'])[:80]
-            path = os.path.join(VERIF, 'replay', '{}_{}.json'.format(self.prop, safe))
+            path = os.path.join(rdir, '{}_{}.json'.format(self.prop, safe))
             with open(path, 'w') as f:
                 json.dump({'property': self.prop, 'key': v['key'], 'what': v['what'], 'kind': v['kind'],
                            'replay': v['replay'], 'repo': REPO}, f, indent=1, default=repr)
@@ -149,8 +150,9 @@ class Ctx:
         ev = {'property_id': self.prop, 'tier': self.tier, 'seed': self.seed, 'level': self.level,
               'coverage': cov, 'assumptions': self.assumptions,
               'wall_s': round(time.time() - self.t0, 2), 'violations': nviol}
-        os.makedirs(os.path.join(VERIF, 'evidence'), exist_ok=True)
-        path = os.path.join(VERIF, 'evidence', self.prop + '.json')
+        evdir = os.environ.get('VERIF_EVIDENCE_DIR') or os.path.join(VERIF, 'evidence')
+        os.makedirs(evdir, exist_ok=True)
+        path = os.path.join(evdir, self.prop + '.json')
         with open(path, 'w') as f:
             json.dump(ev, f, indent=1, default=repr)
         return path
